@@ -887,6 +887,16 @@ def window_cases(seed, thorough):
                     c = window_case(rng, kind, e, e + rng.randint(60, 900), is_html)
                     if c:
                         out.append(c)
+        # dense sweep of the end offset around both boundaries (byte-level ops only: `light`)
+        for w in (1024, 2048):
+            for e in range(w - 48, w + 49):
+                for kind, is_html in (("meta", True), ("xml", False)) + ((("xml", True),) if e % 4 == 0 else ()):
+                    c = window_case(rng, kind, e, e + rng.randint(60, 400), is_html)
+                    if c:
+                        c["light"] = True
+                        c["soup"] = False
+                        c["builder"] = False
+                        out.append(c)
         # long documents: 5% of the length exceeds 2048 from 40 980 bytes on
         for total in (40940, 40979, 40980, 41000, 41020, 60000, 100000):
             w = max(2048, int(total * 0.05))
@@ -1112,7 +1122,19 @@ def history_stream(ctx):
                 list(EncodingDetector(markup, **{k: v for k, v in kw.items() if k in ("known_definite_encodings", "user_encodings", "exclude_encodings", "is_html")}).encodings),
                 soup.original_encoding, soup.decode())
 
+    _obs = obs
+
+    def obs(markup, kw):   # noqa: F811 - guarded version: an exception is an observation too
+        try:
+            return _obs(markup, kw)
+        except Exception as e:   # noqa: BLE001
+            return ("<raised>", type(e).__name__, str(e)[:200], None, None, None, None)
     before = [obs(m, kw) for m, kw in refs]
+    for (m, kw), a in zip(refs, before):
+        if a[0] == "<raised>":
+            ctx.violation(f"history: a plain reference call raised {a[1]}: {a[2]} (every reference input decodes under utf-8 or windows-1252; "
+                          "an earlier call in this process must have left state behind)", case={"history": [], "markup": repr(m), "kwargs": dict(kw)},
+                          expected="a decoded text", observed=f"{a[1]}: {a[2]}", stream="history")
     own = {"known": ["iso-8859-8"], "user": ["iso-8859-1"], "excl": ["utf-8"], "over": ["iso-8859-8", "iso-8859-1"]}
     polluters = [
         ("override_encodings alias", lambda: UnicodeDammit(b"abc", override_encodings=own["over"])),
@@ -1153,6 +1175,64 @@ def history_stream(ctx):
     ctx.count("history:polluters", len(polluters))
 
 
+def forms_stream(ctx):
+    """Argument forms: `_Encodings` is `Iterable[str]`, so lists, tuples, iterators and generators are all legal for known_definite /
+    user / exclude / override encodings. The outcome must not depend on the container, and `EncodingDetector.encodings` must give the
+    same list each time it is read."""
+    from bs4.dammit import UnicodeDammit, EncodingDetector
+    rng = ctx.rng("forms")
+    forms = {"tuple": tuple, "iterator": iter, "generator": lambda l: (x for x in l)}
+    cases = [dict(markup_hex=b"\x81\x00\x81".hex(), is_html=False, known=[], user=["utf-16le"], exclude=[], override=[], stream="forms"),
+             dict(markup_hex=b"\x81\x00\x81".hex(), is_html=True, known=["utf-16le"], user=["utf-32"], exclude=["UTF-8"], override=["utf-16be"], stream="forms"),
+             dict(markup_hex=b"abc".hex(), is_html=False, known=[], user=["koi8-r"], exclude=[], override=[], stream="forms")]
+    while len(cases) < ctx.n(250, 2500):
+        c = gen_case(rng, rng.choice(["grid", "malformed"]))
+        if (c["known"] or c["user"] or c["exclude"] or c["override"]) and len(c["markup_hex"]) < 4000:
+            c["stream"] = "forms"
+            c.pop("chardet", None)
+            cases.append(c)
+
+    def run(c, conv):
+        m = case_markup(c)
+        kw = dict(known_definite_encodings=conv(c["known"]), user_encodings=conv(c["user"]), exclude_encodings=conv(c["exclude"]), is_html=c["is_html"])
+        if c.get("override"):
+            kw["override_encodings"] = conv(c["override"])
+        with warnings.catch_warnings():
+            warnings.simplefilter("ignore")
+            d = UnicodeDammit(m, **kw)
+            kw2 = dict(known_definite_encodings=conv(c["known"]), user_encodings=conv(c["user"]), exclude_encodings=conv(c["exclude"]), is_html=c["is_html"])
+            if c.get("override"):
+                kw2["override_encodings"] = conv(c["override"])
+            det = EncodingDetector(m, **kw2)
+            first, second = list(det.encodings), list(det.encodings)
+        return dict(text=d.unicode_markup, enc=d.original_encoding, repl=d.contains_replacement_characters, decl=d.declared_html_encoding,
+                    encodings=first, encodings_again=second)
+
+    for c in cases:
+        try:
+            base = run(c, list)
+        except Exception as e:   # noqa: BLE001
+            ctx.violation(f"argument forms: list arguments raised {type(e).__name__}: {e}", case=c, stream="forms")
+            continue
+        ctx.case(("forms", c["markup_hex"][:40], tuple(c["known"]), tuple(c["user"]), tuple(c["exclude"])))
+        if base["encodings"] != base["encodings_again"]:
+            ctx.violation("EncodingDetector.encodings gives a different list when read a second time", case=c, expected=base["encodings"],
+                          observed=base["encodings_again"], stream="forms")
+        for fname, conv in forms.items():
+            ctx.count("forms:" + fname)
+            try:
+                got = run(c, conv)
+            except Exception as e:   # noqa: BLE001
+                ctx.violation(f"argument forms: {fname} arguments raised {type(e).__name__}: {e}", case=c | {"form": fname}, stream="forms")
+                continue
+            if got != base:
+                field = next(k for k in base if got[k] != base[k])
+                ctx.violation(f"the outcome depends on the container type of the encoding arguments: with {fname}s instead of lists, {field} differs "
+                              "(a one-shot iterable is exhausted by the first pass / first read)", case=c | {"form": fname},
+                              expected=short(base) | {"encodings": base["encodings"], "encodings_again": base["encodings_again"]},
+                              observed=short(got) | {"encodings": got["encodings"], "encodings_again": got["encodings_again"]}, stream="forms")
+
+
 def run(ctx: Ctx):
     import multiprocessing as mp
     import bs4.dammit as bd
@@ -1171,6 +1251,7 @@ def run(ctx: Ctx):
         bd.chardet_module = None
     _patch_feed()
     history_stream(ctx)
+    forms_stream(ctx)
     # corpus first
     corpus_dir = os.path.join(os.path.dirname(os.path.dirname(os.path.abspath(__file__))), "corpus", "C07")
     corpus = []
@@ -1279,9 +1360,25 @@ def run(ctx: Ctx):
 def replay(path):
     v = json.load(open(path))
     c = v["case"]
+    _patch_feed()
     if "is_html" not in c or ("markup_hex" not in c and "markup_str" not in c):
         print(json.dumps(v, indent=1)[:3000])
         return 1
+    if c.get("stream") == "forms":
+        from bs4.dammit import UnicodeDammit, EncodingDetector
+        conv = {"tuple": tuple, "iterator": iter, "generator": lambda l: (x for x in l)}.get(c.get("form"), list)
+        m = case_markup(c)
+        out = []
+        for cv in (list, conv):
+            with warnings.catch_warnings():
+                warnings.simplefilter("ignore")
+                d = UnicodeDammit(m, known_definite_encodings=cv(c["known"]), user_encodings=cv(c["user"]), exclude_encodings=cv(c["exclude"]), is_html=c["is_html"])
+                det = EncodingDetector(m, known_definite_encodings=cv(c["known"]), user_encodings=cv(c["user"]), exclude_encodings=cv(c["exclude"]), is_html=c["is_html"])
+                out.append((d.unicode_markup, d.original_encoding, d.contains_replacement_characters, list(det.encodings), list(det.encodings)))
+        print("markup:", repr(m)[:200], " arguments:", {k: c[k] for k in ("known", "user", "exclude", "is_html")})
+        print("with lists:        ", out[0])
+        print(f"with {c.get('form', 'list')}s:", out[1])
+        return 0 if out[0] == out[1] and out[0][3] == out[0][4] else 1
     if c.get("stream") in ("bom-exhaustive",):
         from bs4.dammit import EncodingDetector
         b = bytes.fromhex(c["markup_hex"])
